@@ -15,6 +15,21 @@ def pl(i, n, shape, stdin, stdout, stderr, term, nlines, fail_at=-1, detached=Fa
             "detached": detached}
 
 
+def trees(seq):
+    """every way the API can compose the stages seq (in this order): Exec|Exec, Pipeline|Exec, Pipeline|Pipeline"""
+    if len(seq) == 1:
+        return [seq[0]]
+    out = []
+    for k in range(1, len(seq)):
+        left, right = seq[:k], seq[k:]
+        if len(left) == 1 and len(right) != 1:
+            continue  # Exec | Pipeline does not exist
+        for lt in trees(left):
+            for rt in trees(right):
+                out.append([lt, rt])
+    return out
+
+
 def valid(term, stdin, stdout, stderr):
     """combinations the API accepts (others panic by design: e.g. data with a terminator that cannot deliver it)"""
     if term in ("capture", "communicate"):
@@ -52,6 +67,17 @@ def fam_pipelines(seed, big):
                     nlines = rng.choice([0, 1, 7, 20000 if stdout != "inherit" else 50])
                     out.append(pl(i, n, shape, stdin, stdout, stderr, term, nlines, rng=rng))
                     i += 1
+    # every composition tree of 2..5 stages (the same stage sequence must result whatever the shape)
+    for n in (2, 3, 4, 5):
+        for t in trees(list(range(n))):
+            for rep in range(3 if big else 1):
+                term = rng.choice(["capture", "stream_stdout", "popen"])
+                stdin, stdout, stderr = {"capture": ("data", "pipe", "capture"), "stream_stdout": ("file", "pipe", "inherit"),
+                                         "popen": ("pipe", "pipe", "file")}[term]
+                sc = pl(i, n, "tree", stdin, stdout, stderr, term, rng.choice([1, 7, 300]), rng=rng)
+                sc["tree"] = t
+                out.append(sc)
+                i += 1
     return out
 
 
